@@ -22,6 +22,13 @@ def main():
         tier = sys.argv[sys.argv.index("--tier") + 1]
         args = [a for a in args if a != tier]
     allchecks = "--all-checks" in sys.argv
+    # --repo PATH: use a scratch checkout of /repo (git worktree) instead of /repo itself, e.g. while
+    # background runs are using /repo; the checks are pointed at it through VERIF_REPO
+    repo = "/repo"
+    if "--repo" in sys.argv:
+        repo = sys.argv[sys.argv.index("--repo") + 1]
+        args = [a for a in args if a != repo]
+        os.environ["VERIF_REPO"] = repo
     ids = args or sorted(d for d in os.listdir(os.path.join(V, "seeded")) if os.path.isdir(os.path.join(V, "seeded", d)))
     claimed = [c["property_id"] for c in json.load(open(os.path.join(V, "MANIFEST.json")))["checks"]]
     rows = []
@@ -29,11 +36,11 @@ def main():
         d = os.path.join(V, "seeded", sid)
         meta = json.load(open(os.path.join(d, "meta.json")))
         prop = meta["property"]
-        rc, out = sh("git -C /repo status --porcelain")
+        rc, out = sh("git -C %s status --porcelain" % repo)
         if out.strip():
-            print("refusing: /repo is not clean:\n" + out)
+            print("refusing: repo is not clean:\n" + out)
             return 2
-        rc, out = sh("git -C /repo apply %s" % os.path.join(d, "patch.diff"))
+        rc, out = sh("git -C %s apply %s" % (repo, os.path.join(d, "patch.diff")))
         if rc != 0:
             rows.append((sid, prop, "PATCH DOES NOT APPLY", ""))
             print(sid, "patch does not apply:", out)
@@ -53,7 +60,7 @@ def main():
                 if rc == 2:
                     print(out[-1500:])
         finally:
-            sh("git -C /repo checkout -- .")
+            sh("git -C %s checkout -- ." % repo)
         caught = [c for c, r in res.items() if r[0] == 1]
         rows.append((sid, prop, "CAUGHT" if res[prop][0] == 1 else ("TOOL-ERROR" if res[prop][0] == 2 else "MISSED"),
                      "; ".join("%s: rc=%d viol=%d %s drift=%d" % (c, r[0], r[1], ",".join(r[2]), r[3]) for c, r in res.items())))
